@@ -250,6 +250,7 @@ def cbcOpen (env : Env) (a : CbcAead) (dst nonce ciphertext additionalData : Sli
   let ciphertext ← reslice ciphertext 0 (ciphertext.len - a.p.tagSize)
   let _expectTag ← hmacTag env a additionalData
   failIf (!env.authOk) eOther                  -- !hmac.Equal(ciphertextTag, expectTag)
+  failIf (ciphertext.len % 16 != 0) eOther     -- an authenticated body must be whole AES blocks
   let size := ciphertext.len
   let dstLen := dst.len
   let dst ← growDst dst size
@@ -548,7 +549,7 @@ def verifyPublicKey (env : Env) (_digest _signature : Slice) (alg : String) (key
 /-! ## crypto (crypto.go) -/
 
 def algsEncryptSymmetric : List String :=
-  algsCBC ++ algsGCM ++ algsCBCHMAC ++ algsKW ++ algsGCMKW ++ algsChaCha
+  algsCBC ++ algsCBCNoPad ++ algsGCM ++ algsCBCHMAC ++ algsKW ++ algsGCMKW ++ algsChaCha
 def algsEncryptAsymmetric : List String := algsECDH ++ algsRSAEnc
 
 /-- `crypto.Encrypt(plaintext, algorithm, key, nonce, associatedData)` -/
@@ -578,5 +579,107 @@ def parseKey (env : Env) (raw : Slice) (_contentType : String) : M Unit := do
   writeAt dst 0 (env.bytes dst.len)              -- base64.RawStdEncoding.Decode(dst, trimmedRaw)
   writeAt dst 0 (env.bytes dst.len)              -- base64.RawURLEncoding.Decode(dst, trimmedRaw)
   if env.primOk then pure () else fail eOther
+
+/-! ## one entry point for every exported function (what `kitdrv C17` runs) -/
+
+inductive RetV where
+  | slices (l : List Slice)
+  | bool (b : Bool)
+  deriving Repr
+
+/-- a call of an exported function: its name as `package.Func`, the non-slice parameters and the
+`[]byte` arguments by Go parameter name (`key` = the octets of a symmetric `jwk.Key`) -/
+structure Call where
+  fn : String
+  alg : String
+  v : Version
+  size : Int
+  ctype : String
+  kind : KeyKind
+  env : Env
+  outLen : Nat
+  arg : String → Slice
+
+def cbcParamsOf (alg : String) : Option AEADParams :=
+  if alg = "A128CBC-HS256" then some paramsAESCBC128SHA256
+  else if alg = "A192CBC-HS384" then some paramsAESCBC192SHA384
+  else if alg = "A256CBC-HS384" then some paramsAESCBC256SHA384
+  else if alg = "A256CBC-HS512" then some paramsAESCBC256SHA512
+  else none
+
+def Call.key (c : Call) : Key := ⟨c.kind, c.arg "key"⟩
+
+def one (m : M Slice) : M RetV := do
+  let r ← m
+  pure (.slices [r])
+
+def two (m : M (Slice × Slice)) : M RetV := do
+  let r ← m
+  pure (.slices [r.1, r.2])
+
+def fnNames : List String :=
+  ["padding.PadPKCS7", "padding.UnpadPKCS7", "aeskw.Wrap", "aeskw.Unwrap", "aescbcaead.New",
+   "aescbcaead.Seal", "aescbcaead.Open", "crypto.Encrypt", "crypto.EncryptSymmetric",
+   "crypto.Decrypt", "crypto.DecryptSymmetric", "crypto.EncryptPublicKey",
+   "crypto.DecryptPrivateKey", "crypto.SignPrivateKey", "crypto.VerifyPublicKey", "crypto.ParseKey"]
+
+def runCall (c : Call) : M RetV :=
+  let a := c.arg
+  if c.fn = "padding.PadPKCS7" then one (padPKCS7 c.v (a "buf") c.size)
+  else if c.fn = "padding.UnpadPKCS7" then one (unpadPKCS7 (a "buf") c.size)
+  else if c.fn = "aeskw.Wrap" then one (wrap c.env (a "cek"))
+  else if c.fn = "aeskw.Unwrap" then one (unwrap c.env (a "cipherText"))
+  else if c.fn = "aescbcaead.New" then
+    match cbcParamsOf c.alg with
+    | none => fail eOther
+    | some p => do
+      let _ ← newAESCBCAEAD p (a "key")
+      pure (.slices [])
+  else if c.fn = "aescbcaead.Seal" then
+    match cbcParamsOf c.alg with
+    | none => fail eOther
+    | some p => do
+      let ae ← newAESCBCAEAD p (a "key")
+      one (cbcSeal c.v c.env ae (a "dst") (a "nonce") (a "plaintext") (a "additionalData"))
+  else if c.fn = "aescbcaead.Open" then
+    match cbcParamsOf c.alg with
+    | none => fail eOther
+    | some p => do
+      let ae ← newAESCBCAEAD p (a "key")
+      one (cbcOpen c.env ae (a "dst") (a "nonce") (a "ciphertext") (a "additionalData"))
+  else if c.fn = "crypto.Encrypt" then
+    two (encrypt c.v c.env c.outLen (a "plaintext") c.alg c.key (a "nonce") (a "associatedData"))
+  else if c.fn = "crypto.EncryptSymmetric" then
+    two (encryptSymmetric c.v c.env (a "plaintext") c.alg c.key (a "nonce") (a "associatedData"))
+  else if c.fn = "crypto.Decrypt" then
+    one (decrypt c.v c.env c.outLen (a "ciphertext") c.alg c.key (a "nonce") (a "tag") (a "associatedData"))
+  else if c.fn = "crypto.DecryptSymmetric" then
+    one (decryptSymmetric c.v c.env (a "ciphertext") c.alg c.key (a "nonce") (a "tag") (a "associatedData"))
+  else if c.fn = "crypto.EncryptPublicKey" then
+    one (encryptPublicKey c.env c.outLen (a "plaintext") c.alg c.key (a "associatedData"))
+  else if c.fn = "crypto.DecryptPrivateKey" then
+    one (decryptPrivateKey c.env c.outLen (a "ciphertext") c.alg c.key (a "associatedData"))
+  else if c.fn = "crypto.SignPrivateKey" then
+    one (signPrivateKey c.env c.outLen (a "digest") c.alg c.key)
+  else if c.fn = "crypto.VerifyPublicKey" then do
+    let b ← verifyPublicKey c.env (a "digest") (a "signature") c.alg c.key
+    pure (.bool b)
+  else if c.fn = "crypto.ParseKey" then do
+    parseKey c.env (a "raw") c.ctype
+    pure (.slices [])
+  else fail "unknown-function"
+
+/-- the cells a call may write, as `(array, lo, hi)` ranges: nothing, except the part of an
+explicitly passed AEAD `dst`'s spare capacity that receives the output -/
+def mayWrite (c : Call) : List (Nat × Nat × Nat) :=
+  if c.fn = "aescbcaead.Seal" then
+    match cbcParamsOf c.alg with
+    | none => []
+    | some p => dstRange (c.arg "dst") (paddedLen (c.arg "plaintext").len + p.tagSize)
+  else if c.fn = "aescbcaead.Open" then
+    match cbcParamsOf c.alg with
+    | none => []
+    | some p => dstRange (c.arg "dst") ((c.arg "ciphertext").len - p.tagSize)
+  else []
 
 end Kit.CryptoFrame
